@@ -328,6 +328,7 @@ func tableLayout(context *layoutContext, table_ bo.TableBoxITF, bottomSpace pr.F
 						}
 					}
 					row.Height = pr.Max(rowBottomY-row.PositionY, 0)
+					rowBottomY = row.PositionY + row.Height.V()
 				} else {
 					var m pr.Float
 					for _, rowCell := range endingCells {
